@@ -30,6 +30,13 @@ pub open spec fn s_rem(a: Sc, b: Sc) -> Sc { sc(r_rem(a@, b@)) }
 // commutativity by trigger (used through `broadcast use` inside function bodies; see emit.rewrite_body)
 pub broadcast proof fn s_mul_comm(a: Sc, b: Sc) ensures #[trigger] s_mul(a, b) == s_mul(b, a) { assert(a@ * b@ == b@ * a@) by(nonlinear_arith); }
 pub broadcast proof fn s_add_comm(a: Sc, b: Sc) ensures #[trigger] s_add(a, b) == s_add(b, a) { }
+// sign / association algebra by trigger: used only by the focused retry of a failed obligation (props.run_unit, rung 1)
+pub broadcast proof fn s_sub_def(a: Sc, b: Sc) ensures #[trigger] s_sub(a, b) == s_add(a, s_neg(b)) { }
+pub broadcast proof fn s_neg_neg(a: Sc) ensures #[trigger] s_neg(s_neg(a)) == a { }
+pub broadcast proof fn s_neg_add(a: Sc, b: Sc) ensures #[trigger] s_neg(s_add(a, b)) == s_add(s_neg(a), s_neg(b)) { }
+pub broadcast proof fn s_mul_neg(a: Sc, b: Sc) ensures #[trigger] s_mul(s_neg(a), b) == s_neg(s_mul(a, b)) { assert((0real - a@) * b@ == 0real - a@ * b@) by(nonlinear_arith); }
+pub broadcast proof fn s_mul_assoc(a: Sc, b: Sc, c: Sc) ensures #[trigger] s_mul(s_mul(a, b), c) == s_mul(a, s_mul(b, c)) { assert((a@ * b@) * c@ == a@ * (b@ * c@)) by(nonlinear_arith); }
+pub broadcast proof fn s_mul_add(a: Sc, b: Sc, c: Sc) ensures #[trigger] s_mul(a, s_add(b, c)) == s_add(s_mul(a, b), s_mul(a, c)) { assert(a@ * (b@ + c@) == a@ * b@ + a@ * c@) by(nonlinear_arith); }
 pub open spec fn s_eq(a: Sc, b: Sc) -> bool { a@ == b@ }
 pub open spec fn s_lt(a: Sc, b: Sc) -> bool { a@ < b@ }
 pub open spec fn s_le(a: Sc, b: Sc) -> bool { a@ <= b@ }
